@@ -1470,21 +1470,15 @@ def _int_only(name):
 
 
 def _uf_kinds(name, nin):
-    uf = getattr(np, name)
-    ins = [t.split('->')[0] for t in uf.types]
-    kinds = []
-    if not _int_only(name):
-        kinds += ['rn', 'rn', 'discr']
-        if 'D' * nin in ins:
-            kinds += ['cn']
-        if name not in ('signbit', 'copysign', 'arctan2', 'hypot',
-                        'logaddexp', 'logaddexp2', 'modf', 'ceil', 'floor',
-                        'trunc', 'deg2rad', 'rad2deg'):
-            kinds += ['int']
-        else:
-            kinds += ['int']   # ints are cast to the minimal float signature
-    else:
-        kinds += ['int']
+    """Space kinds a ufunc operator is documented to accept: real floats
+    always, complex where NumPy has a complex loop, integers always (integer
+    input is cast to the minimal matching float signature)."""
+    if _int_only(name):
+        return ['int']
+    ins = [t.split('->')[0] for t in getattr(np, name).types]
+    kinds = ['rn', 'rn', 'discr', 'int']
+    if 'D' * nin in ins:
+        kinds.append('cn')
     return kinds
 
 
@@ -1545,7 +1539,7 @@ def _uf_grad(o):
     return lambda: getattr(odl.ufunc_ops, name)().gradient
 
 
-@entry('ufunc.ldexp-like.mixed', 'ufunc', classes=['add_op'])
+@entry('ufunc.mixed-pair', 'ufunc', classes=['add_op'])
 def _uf_mixed(o):
     """Two-argument ufunc on a product of two *different* spaces."""
     name = o.pick('name', ('add', 'multiply', 'maximum', 'less', 'power'))
